@@ -1,6 +1,6 @@
 (* C14 — property theorems: conflicts resolve by age, then namespace/name, independent of order. *)
 From Coq Require Import List String ZArith Permutation Sorted.
-From NGF Require Import lib.Str lib.Order k8s.State k8s.Spec k8s.OrderProofs C14.MatchSort C14.MatchSortProofs.
+From NGF Require Import lib.Str lib.Order k8s.State k8s.Spec k8s.OrderProofs C14.MatchSort C14.MatchSortProofs C14.PolConflict C14.PolConflictProofs.
 Import ListNotations.
 
 (* The order used everywhere (Go: LessObjectMeta / LessClientObject) is a strict total order on
@@ -50,3 +50,33 @@ Proof. exact sort_is_the_priority_order. Qed.
 Theorem C14_higher_priority_strict : (forall a, higher a a = false) /\
   (forall a b c, higher a b = true -> higher b c = true -> higher a c = true).
 Proof. split; [exact higher_irrefl|exact higher_trans]. Qed.
+
+(* ---- policies of one kind on one target (markConflictedPolicies; [mark] runs down the priority order, age then namespace/name) *)
+
+(* the verdicts are exactly the solution of: valid in the end = valid at the start and no policy before it in the priority order
+   that is valid in the end, of its kind and sharing a target with it, conflicts with it - for every conflict relation *)
+Theorem C14_policy_verdicts_characterised : forall conf l v,
+  (map fst v = l /\ verdict_rule conf [] v) <-> v = mark conf [] l.
+Proof. exact mark_characterised. Qed.
+
+(* two policies that are valid in the end never conflict *)
+Theorem C14_policy_survivors_do_not_conflict : forall conf l,
+  ForallOrdPairs (fun a b => can_conflict a b = true -> conf a b = false) (survivors (mark conf [] l)).
+Proof. exact survivors_compatible. Qed.
+
+(* the loser lost to an older policy that is itself valid in the end *)
+Theorem C14_policy_loser_lost_to_older_winner : forall conf l p,
+  In (p, false) (mark conf [] l) -> p_valid0 p = true ->
+  exists l1 l2 w, mark conf [] l = l1 ++ (p, false) :: l2 /\ In w (survivors l1) /\ can_conflict w p = true /\ conf w p = true.
+Proof. exact loser_lost_to_older_winner. Qed.
+
+(* the result does not depend on the order in which the policies arrive or are iterated *)
+Theorem C14_policy_resolution_order_independent : forall conf l1 l2,
+  NoDup (map p_key l1) -> Permutation l1 l2 -> resolve conf l1 = resolve conf l2.
+Proof. exact resolve_order_independent. Qed.
+
+(* the resolution per (kind, target) group over a shared validity state, which the code performed before the repair of D45,
+   does depend on the order in which a Go map yields the groups *)
+Theorem C14_policy_per_group_resolution_refuted :
+  exists l conf g1 g2, Permutation g1 g2 /\ map snd (old_mark conf l g1) <> map snd (old_mark conf l g2).
+Proof. exact old_mark_depends_on_group_order. Qed.
